@@ -50,6 +50,14 @@ bool is_compatible(Type *t1, Type *t2) {
   if (t2->origin)
     return is_compatible(t1, t2->origin);
 
+  // [https://www.sigbus.info/n1570#6.7.2.2p4] Each enumerated type is
+  // compatible with an integer type of the implementation's choice.
+  // An enumerated type is handled as an int everywhere else.
+  if (t1->kind == TY_ENUM && t2->kind != TY_ENUM)
+    return t2->kind == TY_INT && !t2->is_unsigned;
+  if (t2->kind == TY_ENUM && t1->kind != TY_ENUM)
+    return t1->kind == TY_INT && !t1->is_unsigned;
+
   if (t1->kind != t2->kind)
     return false;
 
